@@ -742,6 +742,9 @@ class Interp:
             return z3.And(*conj) if conj else True
         if isinstance(a, SOpaque) and isinstance(b, SOpaque) and hasattr(a, "opaque_eq"):
             return True if a is b else a.opaque_eq(self, b)
+        for x, y in ((a, b), (b, a)):
+            if isinstance(x, SOpaque) and hasattr(x, "eq_any"):
+                return x.eq_any(self, y)
         if type(a) in (SObj, SList, SDict, SSet, SOpaque, SFunc) or type(b) in (SObj, SList, SDict, SSet, SOpaque, SFunc):
             if isinstance(a, SOpaque) and isinstance(b, SOpaque):
                 if a is b:
@@ -1126,6 +1129,8 @@ class Interp:
             return list(it)
         if it is None or isinstance(it, (bool, int, float, SBool, SInt, SFloat)) or _is_singleton(it):
             self.raise_(TypeError, f"'{type(it).__name__}' object is not iterable")
+        if isinstance(it, SOpaque) and hasattr(it, "iterate_hook"):
+            return it.iterate_hook(self)
         if isinstance(it, SV):
             return self.iterate(self.view(it))
         raise Unsupported(f"iteration over {type(it).__name__}")
